@@ -14,7 +14,7 @@ EXPLANATION = (
     "equal the snapshot of the unedited stream except for the documented effect of the edit."
 )
 BOUNDS = {"quick": {"reference streams": "common module header (all fields, full widths) for 3 seeded types; CVAL lists of length 0, 1, n-1, n+1 for 8 seeded types (n: C13); project header with every optional chunk dropped; "
-                                         "4-slot module lists with every subset of slots 1..3 empty; legacy version fix-ups",
+                                         "4-slot module lists with every subset of slots 1..3 empty; legacy version fix-ups; header chunks reversed; VERS/BVER in either order and position",
                     "unknown chunks": "ids ZZZZ/abcd/CHNX/SLNk, payload length 0/1/5 with symbolic bytes, inserted at a symbolic position (every chunk boundary) of 2 reference streams and 5 seeded fixtures <= 600 bytes; and between every pair of chunks simultaneously"},
           "thorough": {"reference streams": "all types", "unknown chunks": "all fixtures <= 3 KB"}}
 OUTSIDE = ["malformed framing (C18)", "unknown ids that collide with a handler of the reader", "stored enum values that are not members of the YAML table (the loader raises ValueError -- recorded in DESIGN.md as an observation, the property speaks of documented encodings)"]
